@@ -2,6 +2,7 @@ package rules
 
 import (
 	"go/ast"
+	"go/token"
 	"go/types"
 
 	"golang.org/x/tools/go/cfg"
@@ -10,10 +11,10 @@ import (
 // flow propagates the facts through fd starting from in. It returns the facts at the normal exits, the
 // facts of the slice fd returns (meet over its return statements; zero when it returns none), and
 // returns=false when fd has no normal exit.
-func (env *c18FlowEnv) flow(fd *ast.FuncDecl, in c18Flow) (c18Flow, c18UF, bool) {
+func (env *c18FlowEnv) flow(fd *ast.FuncDecl, in c18Flow) (c18Flow, c18Ret, bool) {
 	info := env.c.info
 	g := newCFG(info, fd.Body)
-	fr := &c18FlowRun{env: env, fd: fd, preds: map[*cfg.Block][]*cfg.Block{}, sortIn: map[*cfg.Block]*ast.CallExpr{}, retVal: map[*ast.CallExpr]c18UF{}}
+	fr := &c18FlowRun{env: env, fd: fd, preds: map[*cfg.Block][]*cfg.Block{}, sortIn: map[*cfg.Block]*ast.CallExpr{}, retVal: map[*ast.CallExpr]c18Ret{}}
 	fr.loops = env.loopsOf(fd, g)
 	for _, b := range g.Blocks {
 		if !b.Live {
@@ -63,30 +64,60 @@ func (env *c18FlowEnv) flow(fd *ast.FuncDecl, in c18Flow) (c18Flow, c18UF, bool)
 	}
 	env.diagnose(fr, have, inS)
 
-	// the named result of the table's type, for bare returns
+	// results: the one of the table's type (named, for bare returns) and the error
 	var named types.Object
+	tblIdx, errIdx, nres := -1, -1, 0
 	if fd.Type.Results != nil {
 		for _, fld := range fd.Type.Results.List {
-			for _, nm := range fld.Names {
-				if o := info.Defs[nm]; o != nil && types.Identical(o.Type().Underlying(), env.c.table.Type().Underlying()) {
-					named = o
+			t := info.TypeOf(fld.Type)
+			k := len(fld.Names)
+			if k == 0 {
+				k = 1
+			}
+			for j := 0; j < k; j++ {
+				if t != nil && types.Identical(t.Underlying(), env.c.table.Type().Underlying()) {
+					tblIdx = nres
+					if len(fld.Names) > 0 {
+						named = info.Defs[fld.Names[j]]
+					}
+				} else if t != nil && types.Identical(t, types.Universe.Lookup("error").Type()) {
+					errIdx = nres
 				}
+				nres++
 			}
 		}
 	}
+	dom := dominators(g)
+	// settle resolves conditional facts at a block: they hold if the block is only reached with the error nil
+	settle := func(b *cfg.Block, uf c18UF) c18UF {
+		if uf.errv == nil {
+			return uf
+		}
+		if c18KnownNil(info, factsAt(info, g, dom, b), uf.errv) {
+			uf.errv = nil
+			return uf
+		}
+		return c18UF{}
+	}
 	var res c18Flow
-	var rv c18UF
+	var rv c18Ret
 	got, gotRet := false, false
 	for _, b := range g.Blocks {
 		if !b.Live || !have[b] || len(b.Succs) != 0 || c18IsPanicExit(info, b) {
 			continue
 		}
-		if !got {
-			res, got = outS[b], true
-		} else {
-			res = res.meet(outS[b])
+		o := outS[b]
+		for k, uf := range o.f {
+			if uf.errv != nil {
+				o = o.with(k, settle(b, uf))
+			}
 		}
-		if len(b.Nodes) == 0 {
+		if !got {
+			res, got = o, true
+		} else {
+			res = res.meet(o)
+		}
+		if len(b.Nodes) == 0 || tblIdx < 0 {
 			continue
 		}
 		ret, ok := b.Nodes[len(b.Nodes)-1].(*ast.ReturnStmt)
@@ -95,23 +126,54 @@ func (env *c18FlowEnv) flow(fd *ast.FuncDecl, in c18Flow) (c18Flow, c18UF, bool)
 		}
 		var v c18UF
 		switch {
-		case len(ret.Results) == 1:
-			v = fr.value(ret.Results[0], outS[b])
+		case len(ret.Results) == nres:
+			if errIdx >= 0 && isNilIdent(ast.Unparen(ret.Results[tblIdx])) && !isNilIdent(ast.Unparen(ret.Results[errIdx])) {
+				rv.errPath = true // `return nil, err`: no table on this path; the caller has to test the error
+				continue
+			}
+			v = settle(b, fr.value(ret.Results[tblIdx], outS[b]))
 		case len(ret.Results) == 0 && named != nil:
-			v = outS[b].f[named]
+			v = o.f[named]
 		default:
 			continue
 		}
+		v.grp = nil
 		if !gotRet {
-			rv, gotRet = v, true
+			rv.uf, gotRet = v, true
 		} else {
-			rv = c18UF{u: rv.u && v.u, s: rv.s && v.s}
+			rv.uf = c18UF{u: rv.uf.u && v.u, s: rv.uf.s && v.s}
 		}
 	}
 	if !got {
-		return in, c18UF{}, false
+		return in, c18Ret{}, false
 	}
 	return res, rv, true
+}
+
+// c18KnownNil: the guard facts establish that variable o is nil (`o != nil` false or `o == nil` true).
+func c18KnownNil(info *types.Info, facts []guardFact, o types.Object) bool {
+	for _, f := range facts {
+		l, op, r, ok := cmpNorm(f.expr)
+		if !ok {
+			continue
+		}
+		var other ast.Expr
+		switch {
+		case isNilIdent(ast.Unparen(r)):
+			other = l
+		case isNilIdent(ast.Unparen(l)):
+			other = r
+		default:
+			continue
+		}
+		if objOf(info, ast.Unparen(other)) != o {
+			continue
+		}
+		if (op == token.NEQ && !f.val) || (op == token.EQL && f.val) {
+			return true
+		}
+	}
+	return false
 }
 
 // diagnose records, for every loop over a tracked slice, what the analysis found (used for the failure text).
